@@ -150,6 +150,12 @@ impl Ctx {
             let mut v = ct.clone(); v[b / 8] ^= 1 << (b % 8);
             let mode = (b % 2) as u8;
             self.v1_case(sym, &key, mode, big, &v, &plain, true, &format!("{cls}-bitflip-m{mode}"));
+            // the same with the configured limit exactly at / one above the stream's size
+            if b % 3 == 0 {
+                let body = v.len() - blk_len(sym) - 2;
+                self.v1_case(sym, &key, 0, body, &v, &plain, true, &format!("{cls}-bitflip-limit-eq"));
+                self.v1_case(sym, &key, 0, body + 1, &v, &plain, true, &format!("{cls}-bitflip-limit-above"));
+            }
         }
         let step = if ct.len() <= 300 { 1 } else { ct.len() / 61 + 1 };
         let mut cut = 0;
